@@ -6,13 +6,14 @@
      expressions  ESig ELit ESized EFree ECast EBin ECmp EInv ESlice EIdx EConcat EZext ESext ETrunc ERed EIf ETmp ELoop
      targets      LSig (signal / struct field, @= and <<=)  LSlice  LIndex (constant, loop-variable or computed index)  LTmp
      statements   SAssign  SIf (any nesting)  SFor (constant bounds, any nesting; the loop variable ranges over the loop)
-   including the error outcomes of the evaluator.  Not covered (nothing is claimed): sdep / "no latch" (the strong
-   dependence needed by the fixed-point half of C01 needs a definitely-written analysis), and blocks outside the
+   including the error outcomes of the evaluator.  The strong dependence ("no latch") is proved at block level and for
+   the design evaluator RTL/Design.v ((d), (e) below) but is not packaged as `sdep` of Sched.Block (the fixed-point
+   theorem accepted_schedule_fixed_point is therefore not instantiated here).  Not covered: blocks outside the
    language (method calls, lists of signals indexed by a variable, <<= to struct signals, ...), for which the translator
    returns None. *)
 From Coq Require Import ZArith List Bool Arith Lia Permutation.
 Import ListNotations.
-From PV Require Import Base.Prelude Bits.BitsSpec RTL.Syntax RTL.Eval Sched.Block Sched.Confluence Sched.Accept RTL.Footprint RTL.FootprintSound.
+From PV Require Import Base.Prelude Bits.BitsSpec RTL.Syntax RTL.Eval Sched.Block Sched.Confluence Sched.Accept RTL.Footprint RTL.FootprintSound RTL.FlowSound RTL.Design RTL.DesignProofs.
 Open Scope Z_scope.
 
 (* (a) frame: a block changes only bits inside its syntactic write footprint (now, and after the clock edge) *)
@@ -81,6 +82,35 @@ Theorem C01_rtl_mixed_schedules_agree (G : decls) (progs : nat -> list stmt) (in
   forall e, eqe (run_list (Bd d (mixed_run G progs inl R0)) o1 e) (run_list (Bd d (mixed_run G progs inl R0)) o2 e).
 Proof. exact (rtl_mixed_schedules_agree G progs inl R0 d). Qed.
 
+(* (d) no latch / strong dependence: two states that agree on the EXPOSED reads of a block (reads of bits the block has
+   not itself definitely written before, on every path) give the same outcome and the same value for every definitely
+   written bit (must_d), whatever those bits held before.  Whole language, flow-sensitive through if / for. *)
+Theorem C01_rtl_exec_sdep G b (P : bit -> bool) st1 st2 : wf_declsb G = true -> st_ok st1 ->
+  xsub (xreads_d G b) P -> rel2 P [] st1 st2 ->
+  out_rel2 P (must_d G b) (exec_block G b st1) (exec_block G b st2).
+Proof. exact (exec_sdep G b P st1 st2). Qed.
+
+(* (e) whole designs (RTL/Design.v): if the certificate det_pass / det_tick accepts, the values after
+   sim_eval_combinational / sim_tick are a function of the bits in Q (inputs and registers) only — stale values of the
+   wires do not matter, and an exception is raised for both environments or for neither *)
+Theorem C01_rtl_sim_eval_comb_det (D : rdesign) Q Q1 e1 e2 : wf_shapes (rd_shapes D) = true ->
+  det_pass (rd_decls D) (rd_comb D) Q = Some Q1 -> eagree (mem_fp Q) e1 e2 ->
+  match sim_eval_comb D e1, sim_eval_comb D e2 with
+  | Ok a, Ok c => eagree (mem_fp Q1) a c
+  | Err x, Err y => x = y
+  | _, _ => False
+  end.
+Proof. exact (sim_eval_comb_det D Q Q1 e1 e2). Qed.
+
+Theorem C01_rtl_sim_tick_det (D : rdesign) Q Q1 Q2 e1 e2 : wf_shapes (rd_shapes D) = true ->
+  det_tick D Q = Some (Q1, Q2) -> eagree (mem_fp Q) e1 e2 ->
+  match sim_tick_obs D e1, sim_tick_obs D e2 with
+  | Ok (a1, a3), Ok (c1, c3) => eagree (mem_fp Q1) a1 c1 /\ eagree (mem_fp Q2) a3 c3
+  | Err x, Err y => x = y
+  | _, _ => False
+  end.
+Proof. exact (sim_tick_obs_det D Q Q1 Q2 e1 e2). Qed.
+
 (* the table computed from signal shapes (first field most significant) is a legal declaration table *)
 Theorem C01_rtl_decls_of_wf T : wf_shapes T = true -> wf_declsb (decls_of T) = true.
 Proof. exact (decls_of_wf T). Qed.
@@ -125,5 +155,8 @@ Print Assumptions C01_rtl_blk_footprints.
 Print Assumptions C01_rtl_covers_sound.
 Print Assumptions C01_rtl_accepted_schedules_agree.
 Print Assumptions C01_rtl_mixed_schedules_agree.
+Print Assumptions C01_rtl_exec_sdep.
+Print Assumptions C01_rtl_sim_eval_comb_det.
+Print Assumptions C01_rtl_sim_tick_det.
 Print Assumptions C01_rtl_decls_of_wf.
 Print Assumptions C01_rtl_nonvacuous.
